@@ -1376,6 +1376,10 @@ def run(ctx, prop):
                 if len(notes) < 12 and not any(n["key"] == x["key"] for n in notes):
                     notes.append({"key": x["key"], "what": x["what"], "program": x["program"],
                                   "hist": [h["op"] for h in x.get("hist", [])], "diag": x["diag"][:800]})
+            elif kind == "wtc":
+                ctx.count("wtC-false")
+                if prop == "C02":
+                    ctx.violation("model-correspondence:wtC", f"{x['program']}: {x['what']}", x, no_input=True)
             elif kind == "stmt-mismatch":
                 ctx.count("stmt-mismatch")
                 if prop == "C02":
